@@ -136,7 +136,10 @@ def check(case, ctx: Ctx):
             # hermitian conjugate when their coefficient arrays are np.allclose
             # (rtol 1e-5): nearly-real coefficients (|phase| <~ 1e-5) then lose
             # their conjugation -> H[r,c] == H[c,r] instead of conj
-            sym = np.max(np.abs(Ht - Ht.T)) <= 1e-12 * scale
+            # (only the offending entries need to be symmetric: other atoms may carry
+            #  genuinely complex, correctly conjugated terms)
+            bad = np.abs(Ht - Ht.conj().T) > 1e-12 * scale
+            sym = np.max(np.abs((Ht - Ht.T)[bad])) <= 1e-12 * scale
             disc = ("not_hermitian:nearly_real_coefficient_merged_with_its_conjugate"
                     if (sym and herm <= 3e-5 * scale) else "not_hermitian")
             ctx.fail(C, disc, f"t={t}: max|H-H^dagger| = {herm}", cont=True)
@@ -162,6 +165,22 @@ def check(case, ctx: Ctx):
                 for b in M.atoms)
             if nd == 1 and multi:
                 kind += ":several_channels_one_basis"
+            # the emulator's compress() also merges two DIFFERENT terms whose coefficient
+            # arrays are np.allclose (rtol 1e-5) but not equal, e.g. a global detuning of
+            # -125.66370574 and a DMM detuning of -125.66370614: error <= 1e-5 relative
+            arrs = []
+            for c in M.chans.values():
+                Tc = len(c.det)
+                pad = lambda a: np.concatenate([a, np.zeros(M.T - Tc)]) if Tc < M.T else a  # noqa: E731
+                if c.is_dmm:
+                    arrs += [pad(w_ * c.det) for w_ in set(c.weights.values()) if w_]
+                else:
+                    arrs += [pad(c.det), pad(c.amp)]
+            arrs = [a for a in arrs if np.any(a)]
+            near = any(a.shape == b_.shape and not np.array_equal(a, b_) and np.allclose(a, b_, rtol=1e-5, atol=1e-8)
+                       for i, a in enumerate(arrs) for b_ in arrs[i + 1:])
+            if near and np.max(diff) <= 3e-5 * (1 + np.max(np.abs(Hm))) * M.n:
+                kind = kind.split(":")[0] + ":nearly_equal_coefficients_merged"
             ctx.fail(C, kind,
                      f"t={t}: H[{r},{c_}] emulator {Ht[r, c_]} vs documented {Hm[r, c_]} "
                      f"(basis {M.states}, atoms {M.qids})", cont=True)
